@@ -168,7 +168,12 @@ impl<'i> RecipeCollector<'i, '_> {
                     // If define mode is ingredients, don't add the
                     // step to the section. The components should have been
                     // added to their lists
-                    if self.define_mode != DefineMode::Components || new_content.is_text() {
+                    // a step can end up with no items, e.g. a lone "\" that escapes nothing
+                    let empty_step =
+                        matches!(&new_content, Content::Step(step) if step.items.is_empty());
+                    if (self.define_mode != DefineMode::Components || new_content.is_text())
+                        && !empty_step
+                    {
                         if new_content.is_step() {
                             self.step_counter += 1;
                         }
